@@ -46,12 +46,11 @@ func (f filter) Matches(series storage.Series) bool {
 		return true
 	}
 
-	for _, l := range series.Labels() {
-		m, ok := f.matcherSet[l.Name]
-		if !ok {
-			continue
-		}
-		if !m.Matches(l.Value) {
+	// Every matcher has to hold, also for labels the series does not have (they match
+	// as the empty value) and when several matchers share a label name.
+	lbls := series.Labels()
+	for _, m := range f.matchers {
+		if !m.Matches(lbls.Get(m.Name)) {
 			return false
 		}
 	}
